@@ -76,7 +76,7 @@ func (propC01) Gen(seed uint64, ex map[string]bool) interface{} {
 		maxOps = 120
 	}
 	for i := 0; i < np; i++ {
-		f := Feat{Spies: true, MapLoops: true, Include: r.P(70), Inherit: r.P(50), Macros: r.P(50), ErrorsPct: 20, Dashes: true, Sandbox: true, SpyPrefix: fmt.Sprintf("p%d_", i)}
+		f := Feat{Spies: true, MapLoops: true, Include: r.P(70), Inherit: r.P(50), Macros: r.P(50), ErrorsPct: 20, Dashes: true, Sandbox: true, SpyPrefix: fmt.Sprintf("p%d_", i), RelPaths: r.P(25)}
 		sc.Progs = append(sc.Progs, genProgram(r, f))
 	}
 	nops := r.Range(5, maxOps)
